@@ -80,6 +80,7 @@ type SpecDB struct {
 	stable      map[string]bool // "pkgpath.Type.field" or "pkgpath.Type.*"
 	nonnil      map[string]bool
 	ghosts      map[string]Sort
+	ghostZero   map[string][]string // type name -> ghost fields that are zero on a zero-valued object
 	files       []string
 	mirrorUsed  []string
 	guarded     map[string]string // "pkgpath.Type.field" -> mutex field (C20)
@@ -106,7 +107,7 @@ type ScanSpec struct {
 
 func newSpecDB() *SpecDB {
 	return &SpecDB{funcs: map[string]*FuncContract{}, ifaces: map[string]*FuncContract{}, specFns: map[string]*SpecFunc{},
-		stable: map[string]bool{}, nonnil: map[string]bool{}, ghosts: map[string]Sort{}, guarded: map[string]string{}, atomicOnly: map[string]bool{}, specAliases: map[string]specAlias{}, pkgDefault: map[string]*FuncContract{}}
+		stable: map[string]bool{}, nonnil: map[string]bool{}, ghosts: map[string]Sort{}, ghostZero: map[string][]string{}, guarded: map[string]string{}, atomicOnly: map[string]bool{}, specAliases: map[string]specAlias{}, pkgDefault: map[string]*FuncContract{}}
 }
 
 func typeOwner(t types.Type) (pkg, name string) {
@@ -494,6 +495,16 @@ func (db *SpecDB) loadContractFile(path, pkgPath string) error {
 			f := strings.Fields(rest)
 			if len(f) < 2 {
 				return fmt.Errorf("%s:%d: ghost NAME SORT", path, ln+1)
+			}
+			// optional: "zero T1 T2 ...": a zero-valued (just allocated) object of these types has the field at its zero
+			for i, w := range f {
+				if w == "zero" {
+					for _, tn := range f[i+1:] {
+						db.ghostZero[tn] = append(db.ghostZero[tn], f[0])
+					}
+					f = f[:i]
+					break
+				}
 			}
 			db.ghosts[f[0]] = specSort(strings.Join(f[1:], " "))
 		case "guarded":
